@@ -18,6 +18,9 @@
 pub mod execution_profile;
 
 mod execution;
+#[cfg(scylla_verif)]
+#[doc(hidden)]
+pub use execution::verif_hooks as verif_execution_hooks;
 
 pub mod pager;
 
